@@ -871,7 +871,9 @@ static int apply(const struct op *o)
 		connect_state = o->kind == OP_CONNECT_OK ? 1 : 2;
 		int r = bufferevent_socket_connect(c->bev, (struct sockaddr *)&sin, sizeof sin);
 		mc_observe("connect(%s)=%d ", connect_state == 1 ? "ok" : "refused", r);
-		if (r < 0 && connect_state == 1) { mc_fail("C19/connect-failed/connect", "bufferevent_socket_connect to a live listener returned %d", r); }
+		/* an immediate failure is allowed by the API (and happens when the sandbox runs out of ephemeral
+		 * ports under load): no CONNECTED may follow then; not a verdict */
+		if (r < 0) { MC_COUNT("connect_immediate_failures"); connect_state = 2; }
 		if (r == 0) bufferevent_enable(c->bev, EV_READ | EV_WRITE);      /* the usual client sequence */
 		return 1; }
 	case OP_PEER_SEND:
@@ -1079,6 +1081,8 @@ static void teardown(void)
 	if (base) { event_base_free(base); base = NULL; }
 	if (accepted_fd >= 0) close(accepted_fd);
 	accepted_fd = -1;
+	/* connections that were never accepted must not pile up in the listener's backlog */
+	if (listener_fd >= 0) for (;;) { int fd = accept4(listener_fd, NULL, NULL, SOCK_NONBLOCK); if (fd < 0) break; close(fd); }
 	if (mcx_alloc_live() != live0) { KEY(k, "leak/%s", tname()); mc_fail(k, "%ld library allocations still live after teardown (refcount never reached zero?)", mcx_alloc_live() - live0); }
 	if (fd_sig() != fd0) { KEY(k, "fdleak/%s", tname()); mc_fail(k, "fd table differs from the baseline after teardown"); }
 }
